@@ -18,8 +18,10 @@ Check(e) ==
       o == e.o
       X == <<<<e.x[1], 1>>, <<e.x[2], 1>>>>
       eqs == EqScale(e.a, s)
-  IN IF e.plain.outcome # "finished" THEN "plain_run_failed"
-     ELSE IF e.trans.outcome # "finished" THEN "transformed_run_failed"
+      expected == IF e.fail THEN "toofew" ELSE "finished"
+      vt == e.which \in {"all", "vars"}          \* a variable transform is supplied
+  IN IF e.plain.outcome # expected THEN "plain_run_failed"
+     ELSE IF e.trans.outcome # expected THEN "transformed_run_failed"
      ELSE IF ~SameSeq(e.plain.rows, e.trans.rows) THEN "evaluator_received_different_user_domain_vectors"
      ELSE IF ~SameSeq(e.plain.vars, e.trans.vars) THEN "result_variables_differ"
      ELSE IF ~SameSeq(e.plain.pert, e.trans.pert) THEN "perturbed_variables_differ"
@@ -28,6 +30,7 @@ Check(e) ==
      ELSE IF ~SameSeq(e.plain.diffs, e.trans.diffs) THEN "constraint_differences_differ"
      ELSE IF ~SameSeq(e.plain.viols, e.trans.viols) THEN "constraint_violations_differ"
      ELSE IF \E v \in 1..2 : ~ObsEq(e.roundtrip[v], X[v]) THEN "round_trip_not_identity"
+     ELSE IF ~vt THEN "ok"                      \* the configuration checks below concern the variable transform
      ELSE IF \E v \in 1..2 : ~ObsBoundQ(e.cfgopt.lb[v], e.lb[v], ToOpt(<<e.lb[v], 1>>, s[v], o[v]))
                              \/ ~ObsBoundQ(e.cfgopt.ub[v], e.ub[v], ToOpt(<<e.ub[v], 1>>, s[v], o[v])) THEN "transformed_bounds_wrong"
      ELSE IF \E v \in 1..2 : ~ObsEq(e.cfgopt.coef[v], QDiv(RowOptCoef(e.a, s)[v], eqs)) THEN "transformed_linear_coefficients_wrong"
